@@ -126,3 +126,15 @@ pub proof fn lemma_filter_by_is_filter<T>(s: Seq<T>, bs: Seq<bool>, pred: spec_f
         assert(s.filter(pred) =~= Seq::<T>::empty());
     }
 }
+
+// ---- slice::Iter::find(pred) ----
+/// `v.iter().find(p)`: p is asked about the elements in order until it answers true; the result is that
+/// element, or None when it answered false on all of them
+#[verifier::external_body]
+pub fn vx_iter_find<'a, T, P: FnMut(&&'a T) -> bool>(v: &'a Vec<T>, p: P) -> (r: Option<&'a T>)
+    requires forall|x: &&'a T| p.requires((x,)),
+    ensures
+        r is Some ==> (exists|i: int| 0 <= i < v@.len() && #[trigger] v@[i] == *r->Some_0 && p.ensures((&&v@[i],), true)
+            && (forall|j: int| 0 <= j < i ==> p.ensures((&&#[trigger] v@[j],), false))),
+        r is None ==> (forall|i: int| 0 <= i < v@.len() ==> p.ensures((&&#[trigger] v@[i],), false)),
+{ unimplemented!() }
